@@ -460,7 +460,7 @@ theorem compileAll_world_inline {G : Grammar} {o : Opts} {cfg : Cfg} {inp : List
       refine ⟨r, bodyOf inlOpts G r, ko, ⟨ko + 1, sw⟩, by simp [expandG_body, hr], hcr,
         Nat.lt_succ_self ko, ?_, hj (okB_noUalt _ _ hok), ?_, ?_, ?_⟩
       · rw [hcr]; exact ruleFunc_uniq _ _ _ _ _ (Nat.lt_succ_self ko)
-      · exact okB_fine (fun m hm => hm) _ hok
+      · exact (okB_fine (fun m hm => hm) _ hok).fineS
       · rw [expandG_idOf]; simp [Grammar.idOf, hr]
       · obtain ⟨e, he⟩ := LinkedOK.shape hL hr hnil
         simp only [bodyOf, inlOpts, if_true, he]
